@@ -16,15 +16,17 @@ struct cfg { int type; float gpo, gpe, tgpe; };
 static const struct cfg DCFG[] = {
         {KALIGN_TYPE_DNA, -1, -1, -1}, {KALIGN_TYPE_DNA_INTERNAL, -1, -1, -1}, {KALIGN_TYPE_RNA, -1, -1, -1},
         {KALIGN_TYPE_DNA, 1, 7, 3}, {KALIGN_TYPE_DNA, 7, 1, 0}, {KALIGN_TYPE_DNA, 3, 3, 3}, {KALIGN_TYPE_DNA_INTERNAL, 1, 1, 1},
-        {KALIGN_TYPE_DNA, 0.5f, 2, 0}, {KALIGN_TYPE_DNA, 12, 1, 2},
+        {KALIGN_TYPE_DNA, 0.5f, 2, 0}, {KALIGN_TYPE_DNA, 12, 1, 2}, {KALIGN_TYPE_DNA, 0, 2, 1},
 };
 static const struct cfg PCFG[] = {
         {KALIGN_TYPE_PROTEIN, -1, -1, -1}, {KALIGN_TYPE_PROTEIN_DIVERGENT, -1, -1, -1},
         {KALIGN_TYPE_PROTEIN, 1, 7, 3}, {KALIGN_TYPE_PROTEIN, 7, 1, 0}, {KALIGN_TYPE_PROTEIN, 3, 3, 3}, {KALIGN_TYPE_PROTEIN_DIVERGENT, 1, 1, 1},
-        {KALIGN_TYPE_PROTEIN, 0.5f, 2, 0}, {KALIGN_TYPE_PROTEIN_DIVERGENT, 12, 1, 2},
+        {KALIGN_TYPE_PROTEIN, 0.5f, 2, 0}, {KALIGN_TYPE_PROTEIN_DIVERGENT, 12, 1, 2}, {KALIGN_TYPE_PROTEIN, 0, 2, 1},
 };
-#define NDC 9
-#define NPC 8
+/* the last configuration of each list has gpo = 0: the two conventions of the certificate coincide there, so optima decided by small
+   score differences (the ambiguity letters: s(.,X) in {0,-1,-2}) can be certified */
+#define NDC 10
+#define NPC 9
 
 /* sections */
 static int LD(int tier) { return tier ? 5 : 4; }        /* {A,C,G} */
@@ -48,12 +50,17 @@ static const int OVL[5] = {5, 10, 20, 40, 60};
 #define NOVER (3 * 4 * 5 * 5)
 static uint64_t secG(int tier) { (void)tier; return (uint64_t)NOVER * (NDC + NPC); }
 
+/* H: the ambiguity letters (last column of the substitution tables): pairs of strings over {C,A,X} (protein) and {A,C,N} (nucleotide), length <= 3 [4], each between one of three pairs of flanks */
+static int LH(int tier) { return tier ? 4 : 3; }
+#define NRUN (2 * 3 * 2)  /* runs: C^k A^k or A^k C^k (k = 2..4) against X^k (protein; nucleotides: A^k C^k against N^k), either as a or as b */
+static uint64_t secH(int tier) { return (sq(kx_count_strings(3, 1, LH(tier))) + NRUN) * 3 * (NPC + NDC); }
+
 uint64_t vh_total(int tier)
 {
 #if C07_THREADS > 1
         return secE(tier);
 #else
-        return secA(tier) + secB(tier) + secC(tier) + secD(tier) + secE(tier) + secG(tier);
+        return secA(tier) + secB(tier) + secC(tier) + secD(tier) + secE(tier) + secG(tier) + secH(tier);
 #endif
 }
 
@@ -69,6 +76,45 @@ static void decode(uint64_t id, int tier, struct pcase* p)
 #if C07_THREADS > 1
         id += secA(tier) + secB(tier) + secC(tier) + secD(tier);
 #endif
+        if(id >= secA(tier) + secB(tier) + secC(tier) + secD(tier) + secE(tier) + secG(tier)){
+                uint64_t x = id - (secA(tier) + secB(tier) + secC(tier) + secD(tier) + secE(tier) + secG(tier));
+                uint64_t S = kx_count_strings(3, 1, LH(tier));
+                int ci = (int)(x % (NPC + NDC)), fl;
+                char A[64], B[64];
+                x /= (NPC + NDC);
+                fl = (int)(x % 3);
+                x /= 3;
+                p->protein = ci < NPC;
+                p->c = p->protein ? PCFG[ci] : DCFG[ci - NPC];
+                if(x >= S * S){
+                        /* runs: the ambiguity letters must go under the run they score best with */
+                        int r = (int)(x - S * S), order = r & 1, k = 2 + (r >> 1) % 3, swap = r / 6, q;
+                        char hi = p->protein ? 'A' : 'A', lo = p->protein ? 'C' : 'C', amb = p->protein ? 'X' : 'N';
+                        for(q = 0; q < k; q++){
+                                buf[q] = order ? hi : lo;
+                                buf[k + q] = order ? lo : hi;
+                                buf2[q] = amb;
+                        }
+                        buf[2 * k] = 0;
+                        buf2[k] = 0;
+                        if(swap){
+                                char t[16];
+                                strcpy(t, buf);
+                                strcpy(buf, buf2);
+                                strcpy(buf2, t);
+                        }
+                }else{
+                kx_nth_string(x % S, p->protein ? "CAX" : "ACN", 1, LH(tier), buf);
+                kx_nth_string(x / S, p->protein ? "CAX" : "ACN", 1, LH(tier), buf2);
+                }
+                /* the short strings sit between two flanks (protein flanks also fix the kind: C and A alone read as nucleotides) */
+                snprintf(A, sizeof A, "%s%s%s", p->protein ? PFLANK[fl][0] : FLANK[fl][0], buf, p->protein ? PFLANK[fl][1] : FLANK[fl][1]);
+                snprintf(B, sizeof B, "%s%s%s", p->protein ? PFLANK[fl][0] : FLANK[fl][0], buf2, p->protein ? PFLANK[fl][1] : FLANK[fl][1]);
+                p->a = strdup(A);
+                p->b = strdup(B);
+                p->sec = 6;
+                return;
+        }
         if(id < secA(tier)){
                 uint64_t S = kx_count_strings(3, 1, LD(tier));
                 p->c = DCFG[id % NDC];
@@ -338,9 +384,11 @@ int vh_case(uint64_t id, int tier)
         g.a = ca;
         g.b = cb;
         g.subm = ap->subm;
-        g.gpo = ap->gpo;
-        g.gpe = ap->gpe;
-        g.tgpe = ap->tgpe;
+        /* penalties: a value the configuration gives (>= 0) is the one selected, whatever aln_param_init makes of it; the
+           type's defaults are taken from aln_param_init (C09 decides that table) */
+        g.gpo = p.c.gpo >= 0.0f ? p.c.gpo : ap->gpo;
+        g.gpe = p.c.gpe >= 0.0f ? p.c.gpe : ap->gpe;
+        g.tgpe = p.c.tgpe >= 0.0f ? p.c.tgpe : ap->tgpe;
         if(p.sec == 4){
                 vh_case_timeout = 120;
                 alarm(120);
@@ -355,10 +403,39 @@ int vh_case(uint64_t id, int tier)
                 static const int GP[9][2] = {{1, 1}, {2, 1}, {1, 2}, {2, 2}, {3, 1}, {1, 3}, {3, 2}, {2, 3}, {3, 3}};
                 int shapes = 1, sh;
                 int groups_ok = strcmp(p.a, p.b) != 0 && !ed_contained(p.a, p.b, p.protein) && !ed_contained(p.b, p.a, p.protein);
+                int diag_a = 1, diag_b = 1;
                 if(groups_ok && p.sec != 4){
                         shapes = 9;
                 }else if(groups_ok){
                         shapes = 3;
+                }
+                if(groups_ok && p.sec != 4){
+                        /* "a group of identical copies" presupposes that the copies themselves align column by column.  That is certified
+                           too: the diagonal must be the certified unique optimum of (a,a) resp. (b,b) under the same configuration (with
+                           very cheap gaps and letters that score negatively against themselves - X - it is not); a side that is not
+                           certified is used with one copy only */
+                        struct g_ctx ga = g, gb = g;
+                        struct g_cert ca2, cb2;
+                        int q;
+                        ga.b = ga.a;
+                        ga.m = ga.n;
+                        gb.a = gb.b;
+                        gb.n = gb.m;
+                        g_certify(&ga, 0.0, &ca2);
+                        g_certify(&gb, 0.0, &cb2);
+                        diag_a = ca2.representable && ca2.margin > g.gpo + 1.0 + 0.008 * (double)n + 1e-5 * fabs(ca2.s_lo) && ca2.ncol == n;
+                        for(q = 0; q < ca2.ncol && diag_a; q++){
+                                diag_a = ca2.cols[q] == G_M;
+                        }
+                        diag_b = cb2.representable && cb2.margin > g.gpo + 1.0 + 0.008 * (double)m + 1e-5 * fabs(cb2.s_lo) && cb2.ncol == m;
+                        for(q = 0; q < cb2.ncol && diag_b; q++){
+                                diag_b = cb2.cols[q] == G_M;
+                        }
+                        g_cert_free(&ca2);
+                        g_cert_free(&cb2);
+                        if(!diag_a || !diag_b){
+                                vh_count("group_shapes_left_out_copies_not_certified_diagonal");
+                        }
                 }
                 vh_count("certified_cases");
                 if(cert.p_has_gap){
@@ -367,6 +444,9 @@ int vh_case(uint64_t id, int tier)
                 for(sh = 0; sh < shapes; sh++){
                         int pa = GP[sh][0], pb = GP[sh][1], k;
                         struct kx_set in;
+                        if((pa > 1 && !diag_a) || (pb > 1 && !diag_b)){
+                                continue;
+                        }
                         char** rows = NULL;
                         int alen = 0, rc;
                         unsigned char* got;
